@@ -44,7 +44,14 @@ Record facts := {
   (* __normalize_mapping: ordered step tokens *)
   f_pipeline : list string;
   (* __init_processing reset list, in order *)
-  f_resets : list string
+  f_resets : list string;
+  (* validate(): per-call attributes assigned before __init_processing *)
+  f_validate_prologue : list string;
+  (* the validated-schema cache: (site, wrapper tag of the key); does the freezer tag numeric scalars with their
+     type; does every class get its own cache set *)
+  f_cache_sites : list (string * string);
+  f_cache_typed_scalars : bool;
+  f_cache_per_class : bool
 }.
 
 Definition errdef (F : facts) (name : string) : Z * option string :=
